@@ -132,9 +132,10 @@ func newPkg(pkg *packages.Package, u *Universe) Package {
 			if r := s.Recv(); r != nil {
 				var named *types.Named
 
-				switch t := r.Type().(type) {
+				// the receiver may be written through an alias of the type
+				switch t := types.Unalias(r.Type()).(type) {
 				case *types.Pointer:
-					if n, ok := t.Elem().(*types.Named); ok {
+					if n, ok := types.Unalias(t.Elem()).(*types.Named); ok {
 						named = n
 					}
 				case *types.Named:
